@@ -27,7 +27,7 @@
 enum {
 	OP_SIGN = 1, OP_VERIFY = 2, OP_VERIFY_PRIV = 3, OP_VERIFY_BN = 4, OP_KEYGEN = 5,
 	OP_RECOVER = 6, OP_DH = 7, OP_EXPORT = 8, OP_IMPORT = 9, OP_INFO = 10,
-	OP_SIGN_BN = 11, OP_KG_BN = 12, OP_DH_BN = 13
+	OP_SIGN_BN = 11, OP_KG_BN = 12, OP_DH_BN = 13, OP_IMPORT_DIRTY = 14
 };
 
 /* ---- failpoint: overrides the weak hook behind BN_RET_ON_ERR ---- */
@@ -292,6 +292,7 @@ main(void) {
 			xb_free(&qx); xb_free(&qy);
 			break;
 		}
+		case OP_IMPORT_DIRTY:
 		case OP_IMPORT: {
 			xb_t qx = in_blob(&in); uint8_t has_y = vin_u8(&in); xb_t qy = in_blob(&in);
 			uint32_t qsz = vin_u32(&in);
@@ -299,6 +300,10 @@ main(void) {
 			/* the library's own callers (ecdsa_verify_be, ecdsa_dh_be) size the object by curve->m */
 			memset(&P, pat, sizeof(P));
 			if (0 != ec_point_init(&P, curve->m)) goto bad;
+			if (OP_IMPORT_DIRTY == op) { /* the caller's point object held O before: imported from the byte 00 */
+				uint8_t zero = 0;
+				if (0 != ecdsa_pub_key_import_be(curve, &zero, NULL, 1, &P) || 0 == P.infinity) goto bad;
+			}
 			begin(arm, pat);
 			rc = le ? ecdsa_pub_key_import_le(curve, qx.p, has_y ? qy.p : NULL, qsz, &P)
 				: ecdsa_pub_key_import_be(curve, qx.p, has_y ? qy.p : NULL, qsz, &P);
